@@ -4,8 +4,10 @@ import (
 	"fmt"
 	"os"
 
+	"verif/c02"
 	"verif/c09"
 	"verif/c13"
+	"verif/c14"
 	"verif/vf"
 )
 
@@ -14,8 +16,10 @@ var checks = map[string]struct {
 	needs string // binaries ./check must build first
 	run   func(*vf.Run)
 }{
+	"C02": {"exploration", "", c02.Run},
 	"C09": {"exploration", "", c09.Run},
 	"C13": {"exploration", "", c13.Run},
+	"C14": {"exploration", "", c14.Run},
 }
 
 func main() {
